@@ -38,9 +38,12 @@ CLAIMS = {
          "Coq proof (induction over the reader script) + correspondence with scripted readers and real files"),
  "C14": ("Coq theorems (Props/C14.v) over the executable model of Hash::{to_hex,from_hex,from_slice,==}: round trip, exact accept "
          "set, totality (no panic), equality iff bytes equal, for all 2^256 hashes and all byte strings; tables/ranges translated "
-         "from the source; byte-x-position exhaustive differential run against the real API.",
+         "from the source; every function of the Hash value type (as_bytes, from_bytes, as_slice, from_slice, to_hex, from_hex, the two From "
+         "impls, FromStr, the three PartialEq impls, Display) is TRANSLATED function by function from src/lib.rs (gen/GenHashFns.v, "
+         "tools/gen_coq_hash.py) and proved equal to the model for all inputs (C14_src_*), so the round trip holds of the translated text "
+         "itself (C14_src_round_trip); byte-x-position exhaustive differential run against the real API.",
          "constant_time_eq and serde formats are modelled by contract, tied by runs only.",
-         "Coq proof (induction + in-kernel 256-value sweeps) + translated constants + correspondence"),
+         "Coq proof (induction + in-kernel 256-value sweeps) + function-level translation of the Hash impls proved equal to the model + correspondence"),
  "C16": ("Coq theorems (Props/C16.v): every trait op of the machine equals the inherent op(s) (resetting variants = finalize then "
          "reset; ExtendableOutput = finalize_xof then fill); guts::ChunkState/parent_cv return the spec chunk/parent chaining "
          "values and root hashes for every counter, every split of <= 1024 bytes. Correspondence: real trait methods (digest "
@@ -58,9 +61,13 @@ CLAIMS = {
          "success shape, every documented error class; the model is parametric in a two-bit configuration (code as it was / "
          "with the two repairs) and the check probes which one the code under test is; `_refuted` witnesses pin the two "
          "genuine defects found on the unchanged tree (now fixed). Correspondence: real parse_check_line/filepath_to_string "
-         "through a probe binary on every single-scalar mutation of ~40 valid lines (110k cases).",
-         "String literals of main.rs are modelled by hand; clap/anyhow untouched. b3sum harness = include!(main.rs) with a wild shim and clap without wrap_help.",
-         "Coq proof (string/UTF-8 model, induction) + exhaustive-mutation correspondence"),
+         "through a probe binary on every single-scalar mutation of ~40 valid lines (110k cases). The checkfile functions of "
+         "b3sum/src/main.rs (hex_half_byte, filepath_to_string, check_for_invalid_characters, unescape, split_untagged_check_line, "
+         "split_tagged_check_line, parse_check_line) are TRANSLATED statement by statement (gen/GenB3sumFns.v, tools/gen_coq_b3sumfns.py, "
+         "Rust string operations with byte offsets in Base/Str.v) and proved equal to the model result by result for every line "
+         "(C13_src_*; C13_src_parse_check_line_total: the translated parser never panics).",
+         "to_string_lossy and cfg!(windows) are parameters of the translation; clap/anyhow untouched. b3sum harness = include!(main.rs) with a wild shim and clap without wrap_help.",
+         "Coq proof (string/UTF-8 model, induction) + statement-level translation of the parser proved equal to the model + exhaustive-mutation correspondence"),
  "C12": ("Coq theorems (Props/C12.v): printed digest = lowercase hex / raw of S[seek..seek+len] for seek+len <= 2^64-1; "
          "exit status 0 iff every line of every checkfile checks (any number of lines, saturating counter never wraps); every "
          "failing line is diagnosed and the loop continues. Correspondence: the real b3sum binary on generated trees, flag "
@@ -90,12 +97,15 @@ CLAIMS = {
          "compress_in_place / compress_xof of the five SSE / AVX-512 files are TRANSLATED (gen/GenRows.v) and proved equal to the portable "
          "compression; every load_counters* function of the C-intrinsics and Rust-intrinsics back ends is TRANSLATED statement by "
          "statement (gen/GenCounters.v over the intrinsic semantics of Model/Intrinsics.v) and proved equal to the counter models and "
-         "to 'lane i = low/high word of counter + i' for all counters. Correspondence at kernel level for EVERY executable flavour (Rust asm/intrinsics/pure builds, C "
+         "to 'lane i = low/high word of counter + i' for all counters; hash1 / hash_one_* and the WHOLE hash_many / blake3_hash_many_* functions "
+         "(every batch loop and the trailing one-at-a-time loop of the portable, SSE2, SSE4.1, AVX2, AVX-512 Rust and C files) are TRANSLATED "
+         "(gen/GenCascades.v) and proved equal to the cascade models result by result at every sufficient fuel (Proofs/CascadesP*.v, "
+         "C05_src_*hash_many*). Correspondence at kernel level for EVERY executable flavour (Rust asm/intrinsics/pure builds, C "
          "intrinsics, Unix assembly, Windows-GNU assembly via ms_abi) against the extracted portable model: block_len 0..64, "
          "flags 0..255, counters around 2^32/2^63/2^64, num_inputs 0..2*degree+1, alignments, xof 1..35 blocks.",
          "Partial: the assembly and intrinsics CODE is not modelled instruction by instruction (no ISA semantics installed): "
          "the algorithm is proved, the code is tied by correspondence only. SSE2's blend emulation is not proved equal to lane selection.",
-         "Coq proof of the kernel algorithms + kernel-level correspondence of every flavour"),
+         "Coq proof of the kernel algorithms + statement-level translation of the intrinsics sources proved equal to them + kernel-level correspondence of every flavour"),
  "C06": ("Coq theorems (Props/C06.v) about a model of c/blake3.c (Model/CHasher.v: chunk state, fixed 55-slot in-place "
          "CV stack with popcnt merging, compress_subtree_wide / to_parent_node, update_base, output_root_bytes, finalize_seek, "
          "reset, the four initialisers): C06_update_refines - for EVERY sequence of blake3_hasher_update calls whose inputs "
